@@ -124,6 +124,7 @@ func (cj *CookieJar) Set(uri *fasthttp.URI, cookies ...*fasthttp.Cookie) {
 //
 // CookieJar stores copies of the provided cookies, so they may be safely released after use.
 func (cj *CookieJar) SetByHost(host []byte, cookies ...*fasthttp.Cookie) {
+	host = hostWithoutPort(host)
 	hostStr := utils.UnsafeString(host)
 
 	cj.mu.Lock()
@@ -184,6 +185,7 @@ func (cj *CookieJar) dumpCookiesToReq(req *fasthttp.Request) {
 
 // parseCookiesFromResp parses the cookies from the response and stores them for the specified host and path.
 func (cj *CookieJar) parseCookiesFromResp(host, path []byte, resp *fasthttp.Response) {
+	host = hostWithoutPort(host)
 	hostStr := utils.UnsafeString(host)
 
 	cj.mu.Lock()
@@ -231,6 +233,14 @@ func (cj *CookieJar) Release() {
 	//	  }
 	// }
 	cj.hostCookies = nil
+}
+
+// hostWithoutPort returns the key cookies are stored under: lookups ignore the port, so stores have to as well.
+func hostWithoutPort(host []byte) []byte {
+	if h, _, err := net.SplitHostPort(utils.UnsafeString(host)); err == nil {
+		return utils.UnsafeBytes(h)
+	}
+	return host
 }
 
 // searchCookieByKeyAndPath looks up a cookie by its key and path from the provided slice of cookies.
